@@ -102,7 +102,11 @@ class Check:
     def mismatch(self, clause: str, sig: dict, replay: dict, props=None):
         """A disagreement between specification and implementation.  It counts for this check when
         the clause belongs to this property, otherwise it is listed as foreign."""
-        props = props or [self.pid]
+        props = [self.pid] if props is None else props
+        if not props:
+            k = "%s(informational)" % clause
+            self.foreign[k] = self.foreign.get(k, 0) + 1
+            return
         if self.pid not in props:
             k = "%s(%s)" % (clause, ",".join(props))
             self.foreign[k] = self.foreign.get(k, 0) + 1
